@@ -421,7 +421,8 @@ func (r *v2Runner) buildRoutes(rs []v2R, lvl *v2Level) RouteList {
 				})
 			case 3:
 				nh = NextHandlerFunc(func(cx *Connection, next Handler) error {
-					return next.Handle(cx.Wrap(cx.Conn))
+					// as after tls.Server(cx) / proxyprotocol.NewConn(cx): the new Connection reads through the old one
+					return next.Handle(cx.Wrap(cx))
 				})
 			default:
 				sub := &v2Level{depth: lvl.depth + 1, rs: h.sub}
@@ -841,6 +842,11 @@ func TestVerifC02Router(t *testing.T) {
 	g := vNewRng(vSeed())
 	nCases := vN(2000)
 	prop := os.Getenv("VERIF_PROP")
+	if prop == "C05" {
+		// C05 uses this engine for its untimed part (deadline state at handlers, buffer bound, fail-closed):
+		// every configuration still goes through the oracle, a quarter of the slice through the in-Coq comparison
+		nCases /= 4
+	}
 
 	type cfg struct {
 		rs  []v2R
